@@ -200,6 +200,46 @@ theorem dispatch_table :
     Gen.containRule .disjoint .disjoint = some .allOther := by
   refine ⟨rfl, rfl, rfl, fun k => by cases k <;> rfl, rfl, rfl, rfl⟩
 
+/-! ### the leaf test `SimpleShape.__contains_simple` as a decision over its geometric tests (regenerated: `Gen.containsSimpleTable`) -/
+
+/-- what the decision SHOULD be, written from the geometry (A = `other`, B = `self`; is A ⊆ B?).  For simple closed curves that do not cross:
+an unbounded region is never inside a bounded one; when the boxes are apart A ⊆ B iff A is bounded and B is the outside of a curve;
+bounded-in-unbounded: the curve of A lies in B and the curve of B does not lie in A; same type: A cannot be larger, its curve must lie in B,
+and for two unbounded regions the question is the one for the complements with the roles exchanged -/
+def containsSimpleSpec (aPos aNeg bPos bNeg boxApart jaIn jbIn aGtB recC : Bool) : Bool :=
+  if aNeg && bPos then false
+  else if boxApart then aPos && bNeg
+  else if aPos && bNeg then jaIn && !jbIn
+  else if aGtB || !jaIn then false
+  else if aPos then true
+  else recC
+
+/-- the table regenerated from the source IS the specification, on all 512 combinations of answers of its tests (any rewrite of the source that
+is equal as a boolean function re-proves) -/
+theorem source_contains_simple_is_spec : ∀ aPos aNeg bPos bNeg boxApart jaIn jbIn aGtB recC : Bool,
+    Gen.containsSimpleTable aPos aNeg bPos bNeg boxApart jaIn jbIn aGtB recC
+      = containsSimpleSpec aPos aNeg bPos bNeg boxApart jaIn jbIn aGtB recC := by decide
+
+/-- consequences, for every combination of the remaining tests: an unbounded shape is never reported inside a bounded one … -/
+theorem unbounded_never_in_bounded (boxApart jaIn jbIn aGtB recC : Bool) :
+    Gen.containsSimpleTable false true true false boxApart jaIn jbIn aGtB recC = false := by
+  revert boxApart jaIn jbIn aGtB recC; decide
+
+/-- … a bounded shape whose curve does not lie in the (bounded or unbounded) candidate container is never reported inside it (boxes meeting) … -/
+theorem curve_outside_means_not_contained (aPos aNeg bPos bNeg jbIn aGtB recC : Bool) (h : (aNeg && bPos) = false) :
+    Gen.containsSimpleTable aPos aNeg bPos bNeg false false jbIn aGtB recC = false := by
+  revert h; revert aPos aNeg bPos bNeg jbIn aGtB recC; decide
+
+/-- … a bounded shape of larger area is never reported inside a bounded one … -/
+theorem larger_never_in_smaller (boxApart jaIn jbIn recC : Bool) :
+    Gen.containsSimpleTable true false true false boxApart jaIn jbIn true recC = false := by
+  revert boxApart jaIn jbIn recC; decide
+
+/-- … and for two unbounded shapes (boxes meeting, A's curve in B, A not larger) the answer is exactly the answer for the complements -/
+theorem both_unbounded_is_complement_question (jbIn recC : Bool) :
+    Gen.containsSimpleTable false true false true false true jbIn false recC = recC := by
+  revert jbIn recC; decide
+
 /-! ### non-vacuity: the interpreted dispatch on concrete polygons, leaf test = the verified region checker -/
 def rsLeaf (a b : Jordan) : Bool := regionSubset (.simple b) (.simple a)
 def sqr (x0 y0 x1 y1 : Rat) : Jordan := Jordan.fromVertices [⟨x0, y0⟩, ⟨x1, y0⟩, ⟨x1, y1⟩, ⟨x0, y1⟩]
